@@ -60,6 +60,7 @@ type threadWorld struct {
 	mutexes  map[*value]*mutexState
 	wgs      map[*value]*wgState
 	execLog  []string
+	onces    map[*value]*onceFn
 	written  map[string]Str // os.WriteFile model: last content per file name
 	execPlan []execRule
 	fatal    interface{}
@@ -87,6 +88,9 @@ var threadStubs = map[string]stubFn{
 	"os.Stat":                                    stubStat,
 	"path/filepath.Abs":                          stubAbs,
 	"os.Getwd":                                   func(p *path, _ *frame, a []value) value { return tuple{p.mkStr(engineWorkDir), iface{}} },
+	"sync.OnceValue":                             stubOnceValue,
+	"sync.OnceFunc":                              stubOnceValue,
+	"(*sync.Once).Do":                            stubOnceDo,
 	"(*sync.Map).Load":                           stubSyncMapLoad,
 	"(*sync.Map).Store":                          stubSyncMapStore,
 	"(*sync.Map).LoadOrStore":                    stubSyncMapLoadOrStore,
@@ -323,6 +327,50 @@ func (p *path) memAccess(fr *frame, ptr *value, write bool, instr ssa.Instructio
 
 func (p *path) noteAlloc(fr *frame, ptr *value) {}
 
+// --- sync.Once / sync.OnceValue / sync.OnceFunc: the function runs under a lock of its own on the first
+// call; later calls (and concurrent callers, once the first has finished) get the stored result. The
+// happens-before edges are those of the lock.
+
+type onceFn struct {
+	mu   *value // identity of the internal lock
+	f    value
+	done bool
+	res  value
+}
+
+func stubOnceValue(p *path, _ *frame, a []value) value {
+	return &onceFn{mu: new(value), f: a[0]}
+}
+
+func (p *path) callOnce(caller *frame, o *onceFn) value {
+	stubMutexLock(p, caller, []value{o.mu})
+	if !o.done {
+		o.res = p.call(caller, o.f, nil, nil)
+		o.done = true
+	}
+	stubMutexUnlock(p, caller, []value{o.mu})
+	return o.res
+}
+
+func stubOnceDo(p *path, fr *frame, a []value) value {
+	ptr, ok := a[0].(*value)
+	if !ok || ptr == nil {
+		p.runtimePanic("nil pointer dereference", "sync.Once")
+	}
+	w := p.ensureWorld()
+	if w.onces == nil {
+		w.onces = map[*value]*onceFn{}
+	}
+	o := w.onces[ptr]
+	if o == nil {
+		o = &onceFn{mu: new(value)}
+		w.onces[ptr] = o
+	}
+	o.f = a[1]
+	p.callOnce(fr, o)
+	return nil
+}
+
 // --- sync.Mutex
 
 func (p *path) mutexOf(v value) *mutexState {
@@ -541,6 +589,15 @@ func vfWritten(p *path, _ *frame, a []value) value {
 func vfExecSet(p *path, _ *frame, a []value) value {
 	w := p.ensureWorld()
 	w.execPlan = append(w.execPlan, execRule{p.argName(a[0]), p.argName(a[1]), a[2].(*Term)})
+	return nil
+}
+
+// vfExecReset(): the environment changes: the planned outcomes and the log are forgotten (tools may be
+// installed or removed between two uses of the code under test).
+func vfExecResetI(p *path, _ *frame, a []value) value {
+	w := p.ensureWorld()
+	w.execPlan = nil
+	w.execLog = nil
 	return nil
 }
 
